@@ -121,7 +121,7 @@ func (o *tiInput) ExpectedFaults() []string { return faultKinds }
 
 func pickProgram(c *Ctx, r *Rng, ties bool) ([]byte, string) {
 	switch k := r.Intn(20); {
-	case k >= 17 && r.Chance(1, 2):
+	case k >= 16 && r.Chance(1, 2):
 		return shapedProgram(r)
 	case k < 1:
 		// a long file: several corpus programs back to back (size-dependent behaviour)
@@ -147,7 +147,49 @@ func pickProgram(c *Ctx, r *Rng, ties bool) ([]byte, string) {
 }
 
 // shapedProgram draws one of the generators for size- and shape-dependent behaviour.
+// retypeProgram: a few variables that keep changing their type (array, hash, string, number,
+// nil, object) between and inside the statements that index, update and call them.
+func retypeProgram(r *Rng) []byte {
+	var sb strings.Builder
+	vars := []string{"a", "b", "h"}[:r.Range(1, 3)]
+	lits := []string{"[1]", "[]", "{x: 1}", "{}", "\"s\"", "1", "1.5", "nil", ":s", "[[1, 2]]", "{a: {b: 1}}", "(1..3)", "Object.new"}
+	for _, v := range vars {
+		fmt.Fprintf(&sb, "%s = %s\n", v, r.Pick(lits))
+	}
+	idx := []string{"0", "-1", ":x", ":y", "\"k\"", "1..2", "nil"}
+	for k := 0; k < r.Range(3, 10); k++ {
+		v, w := r.Pick(vars), r.Pick(vars)
+		if r.Chance(1, 2) {
+			w = v // the statement re-types the very variable it is working on
+		}
+		switch r.Intn(9) {
+		case 0:
+			fmt.Fprintf(&sb, "%s = %s\n", v, r.Pick(lits))
+		case 1:
+			fmt.Fprintf(&sb, "%s[%s] = %s\n", v, r.Pick(idx), r.Pick(lits))
+		case 2:
+			fmt.Fprintf(&sb, "%s[%s] = (%s = %s)\n", v, r.Pick(idx), w, r.Pick(lits))
+		case 3:
+			fmt.Fprintf(&sb, "c%d = %s[%s]\n", k, v, r.Pick(idx))
+		case 4:
+			fmt.Fprintf(&sb, "%s << (%s = %s)\n", v, w, r.Pick(lits))
+		case 5:
+			fmt.Fprintf(&sb, "%s[%s] %s %s\n", v, r.Pick(idx), r.Pick([]string{"+=", "||=", "<<"}), r.Pick(lits))
+		case 6:
+			fmt.Fprintf(&sb, "%s.each { |e, f| %s = e }\n", v, w)
+		case 7:
+			fmt.Fprintf(&sb, "%s, %s = %s, %s[%s]\n", v, w, w, v, r.Pick(idx))
+		default:
+			fmt.Fprintf(&sb, "p %s[%s].%s\n", v, r.Pick(idx), r.Pick([]string{"size", "to_s", "foo", "first", "keys"}))
+		}
+	}
+	return []byte(sb.String())
+}
+
 func shapedProgram(r *Rng) ([]byte, string) {
+	if r.Chance(1, 3) {
+		return retypeProgram(r), "retyping"
+	}
 	switch r.Intn(4) {
 	case 0:
 		return hierarchyProgram(r), "hierarchy"
@@ -412,7 +454,7 @@ func (o *tiInput) Make(c *Ctx, i int) *Case {
 		default:
 			fk = "F7-crlf"
 		}
-		if (origin == "cyclic" || origin == "hierarchy" || origin == "alias-chains" || origin == "big-literals") && r.Chance(2, 3) {
+		if (origin == "cyclic" || origin == "hierarchy" || origin == "alias-chains" || origin == "big-literals" || origin == "retyping") && r.Chance(2, 3) {
 			fk = ""
 		}
 		if o.prop == "C02" && fk == "F1-torn" && r.Chance(1, 3) {
